@@ -150,4 +150,58 @@ theorem probe_never_resent (go : Call → St → St × Ret) (key : Nat) (st : St
     ∃ s' es, bodyRequeue go key st inc rec deferred s = ((go (.endQuery none key es rec) s').1, .timeout) :=
   requeue_noRetries_ends go key st inc rec deferred s q hq hnr
 
+/-! ## non-vacuity: concrete runs (kernel-evaluated) -/
+
+/-- three servers, server 0 has one failure -/
+def exServers : List Server :=
+  [{ id := 0, addr := "a", failures := 1 }, { id := 1, addr := "b" }, { id := 2, addr := "c" }]
+def exSt : St := { alive := true, servers := exServers, obs := { rnd2 := [7, 9, 4, 11], rnd1 := [5] } }
+def exSpec : ReqSpec := { name := "6578", qtype := 1 }
+
+/-- a fresh request without rotation goes to server 1 — the first of the two servers without failures — and the log
+    records the priorities `[(1,0), (2,0), (0,1)]` -/
+example : (exec 60 (.sendNolock none false false exSpec (.user 1) []) exSt).1.picks =
+    [(0, 1, false, [(1, 0), (2, 0), (0, 1)])] := by decide
+
+/-- with rotation the observed draw 5 selects index `5 % countBest = 1`: server 2, one of the two best -/
+example : (exec 60 (.sendNolock none false false exSpec (.user 1) []) { exSt with cfg := { rotate := true } }).1.picks =
+    [(0, 2, false, [(1, 0), (2, 0), (0, 1)])] := by decide
+
+/-- `PickOk` is not vacuous: picking server 2 without rotation violates it (server 1 has the same failure count and
+    a smaller index) … -/
+example : ¬ PickOk false [0, 1, 2] (0, 2, false, [(1, 0), (2, 0), (0, 1)]) := by
+  intro h
+  obtain ⟨_, _, f, hm, hmin, hfirst⟩ := h rfl
+  have hf : f = 0 := by
+    have := hmin (1, 0) (by simp)
+    simpa using this
+  subst hf
+  have := hfirst rfl (1, 0) (by simp) rfl
+  simp at this
+
+/-- … and so does picking the failed server 0 -/
+example : ¬ PickOk true [0, 1, 2] (0, 0, false, [(1, 0), (2, 0), (0, 1)]) := by
+  intro h
+  obtain ⟨_, _, f, hm, hmin, _⟩ := h rfl
+  have hf : f = 0 := by
+    have := hmin (1, 0) (by simp)
+    simpa using this
+  subst hf
+  simp at hm
+
+/-- with `retryChance = 1` the same request also sends a probe: a second request (key 1) explicitly to the failed
+    server 0, owned by `probe`, with `no_retries`; server 0 is marked as being probed -/
+example :
+    let r := (exec 60 (.sendNolock none false false exSpec (.user 1) []) { exSt with cfg := { retryChance := 1 } }).1
+    r.picks = [(0, 1, false, [(1, 0), (2, 0), (0, 1)]), (1, 0, true, [(1, 0), (2, 0), (0, 1)])] ∧
+    r.qs.map (fun q => (q.key, q.noRetries, q.owner)) = [(0, false, .user 1), (1, true, .probe)] ∧
+    r.servers.map (fun v => (v.id, v.probePending)) = [(0, true), (1, false), (2, false)] ∧
+    r.outOfFuel = false ∧ r.modelFaults = [] := by decide
+
+/-- a failure of server 1 moves it behind server 0 (tie on failures, larger index); a success of server 0 restores it
+    to the front -/
+example : (exSt.incFailures 1 false).sortedServers.map (·.id) = [2, 0, 1] ∧
+    (exSt.setGood 0 false).sortedServers.map (·.id) = [0, 1, 2] ∧ exSt.IdsNodup := by
+  unfold St.IdsNodup; decide
+
 end Cares.C09
